@@ -161,8 +161,22 @@ func normKey(v value) interface{} {
 		return sb.String()
 	case rtype:
 		return "rtype:" + types.TypeString(v.t, nil)
-	case symInt, symBool, *sstr:
-		panic(engineError("symbolic value used as map key"))
+	case *sstr:
+		// a string with symbolic bytes used as a map key is enumerated
+		// over its feasible values (one fork per symbolic byte)
+		buf := make([]byte, len(v.b))
+		for i, e := range v.b {
+			if c, ok := e.(uint8); ok {
+				buf[i] = c
+			} else {
+				buf[i] = byte(v.x.concretize(e.(symInt), "map key byte"))
+			}
+		}
+		return string(buf)
+	case symInt:
+		return normKey(mkInt(v.k, uint64(v.x.concretize(v, "map key"))))
+	case symBool:
+		return v.x.decide(v.t)
 	}
 	panic(targetPanic{iface{t: types.Typ[types.String], v: fmt.Sprintf("runtime error: hash of unhashable type %T", v)}})
 }
